@@ -250,7 +250,7 @@ def c01(ctx):
     outs = seq_jobs(ctx, "seq-small", 4, 6 if q else 40, 60, 10, ("crashfs", "mem", "os", "osmmap"))
     outs += seq_jobs(ctx, "seq-chains", 12, 3 if q else 20, 260 if q else 500, 72, ("crashfs", "crashfs", "osmmap", "mem", "os", "crashfs"))
     outs += seq_jobs(ctx, "seq-long-chains", 4, 2 if q else 16, 400, 170, ("crashfs", "osmmap", "mem", "os"), ["-oneclass"])
-    outs += strict_wal(ctx, "seq-strict", 4 if q else 16, 3 if q else 8, 150, 24, ALLFS)
+    outs += strict_wal(ctx, "seq-strict", 4 if q else 16, 3 if q else 8, 200, 72, ALLFS)
     rejs = regress(ctx) + ctx.validate(outs) + lh_replay(ctx, 60 if q else 1500, mult=None)
     ctx.sample_from(outs[0], 1)
     ctx.report_rejections(rejs, describe_generic)
